@@ -55,6 +55,8 @@ func c08Script(steps int) {
 	w := newUpWorld()
 	main0 := w.ft
 	cand := w.candidate()
+	lateClose := verif.Bool() // the candidate's connection reports its close asynchronously
+	cand.holdClose = lateClose
 	// an application message buffered while the poll cycle is busy
 	m1 := w.send(1, false) // goes out on polling at once (poll pending)
 	m2 := w.send(2, false) // buffered: polling is busy until the next poll
@@ -121,10 +123,16 @@ func c08Script(steps int) {
 		verif.Assert(len(main0.flat()) == quiet, "the check interval of the failed attempt is cleared")
 		verif.Assert(main0.ReadyState() == "open" && !main0.Discarded(), "the original transport is untouched")
 		// further upgrade attempts are possible and do complete
+		failedCand := cand
 		cand = w.candidate()
 		w.sock.MaybeUpgrade(cand)
 		cand.OnPacket(probePing())
 		cand.complete()
+		if lateClose {
+			// the failed candidate's connection reports its close only now
+			failedCand.OnClose()
+			verif.Assert(w.sock.Upgrading() && !w.sock.Upgraded(), "a late close of an abandoned candidate does not touch the candidate now being entertained")
+		}
 		cand.OnPacket(&packet.Packet{Type: packet.UPGRADE, Data: types.NewStringBufferString("")})
 		verif.Assert(w.sock.Transport() == transports.Transport(cand) && w.sock.Upgraded(), "a later candidate that follows the protocol completes the switch")
 		done = true
